@@ -763,8 +763,15 @@ class Relay:
         time between two relay steps is negligible against the library's 60 s / 30 s TLS timers, so the virtual clock
         must not jump to such a timer while ciphertext is still in flight."""
         busy = timeout == 0
+        before = self._snapshot()
         self.step(busy, sel)
         if busy:
+            if self._snapshot() != before:
+                # World accelerates the virtual clock geometrically during an uninterrupted busy streak that has a timer
+                # ahead (made for loops that spin on their own, C13).  A streak that is busy because the ENVIRONMENT
+                # delivers a fragment at every iteration is not a spin: 100 seven-byte deliveries must not consume the
+                # 60 s handshake timeout.  Each delivering step therefore restarts the streak (1 us per iteration).
+                world.busy_streak = 0
             return
         while not world.runnable() and not world._ready(sel):
             before = self._snapshot()
